@@ -205,6 +205,17 @@ func c07(c *Ctx) {
 	c.GuardedPaths("gate/Writeable-halt", "litefs.(*DB).Writeable", IsReturn, [][]*Guard{{GP("litefs.(*DB).HasRemoteHaltLock(p0)", true), GP("litefs.(*DB).HasRemoteHaltLock(p0)", false)}}, 1,
 		"Writeable consults HasRemoteHaltLock on every path", "")
 	c.Expect("gate/isPrimary-def", strings.Join(c.returnsOf("litefs.(*Store).isPrimary"), ";"), pat("(p0.lease != nil)"), "isPrimary() is lease != nil", "")
+	c.OnlyGuards("gate/RemoteHaltLock-reports-what-is-stored", "litefs.(*DB).RemoteHaltLock", func(in ssa.Instruction) bool {
+		r, ok := in.(*ssa.Return)
+		return ok && len(r.Results) == 1 && c.P.Render(returnedValue(r, 0)) == "nil"
+	}, gs(G(`^\(nil == sync/atomic\.\(\*Value\)\.Load\(&p0\.remoteHaltLock\)\.\(\*litefs\.HaltLock\)\)$|^\(sync/atomic\.\(\*Value\)\.Load\(&p0\.remoteHaltLock\)\.\(\*litefs\.HaltLock\) == nil\)$`, true)), 1,
+		"RemoteHaltLock() answers nil exactly when no lock is stored - the same test HasRemoteHaltLock() and Writeable() make", "the commit paths decide 'forward to the primary' with RemoteHaltLock() and the gates decide 'writable' with HasRemoteHaltLock(): when the two disagree (an expired lock hidden by one of them) a replica publishes a transaction locally that the primary never saw")
+	{
+		alive := G(`^\(context\.Context\.Err\(p1\) == nil\)$|^\(nil == context\.Context\.Err\(p1\)\)$`, true)
+		rsf := "litefs.(*Store).restoreDBFromBackup"
+		c.GuardedFrom("restore/role-rechecked-under-the-lock", rsf, p.PlainCalls("litefs.(*DB).AcquireWriteLock"), p.PlainCalls("litefs.(*DB).recover", "litefs.(*DB).WriteLTXFileAt", "litefs.(*DB).ApplyLTXNoLock"), gs(alive), 3,
+			"between taking the write lock and recovering, publishing or applying anything, the restore consults its (primary-scoped) context again", "F61: AcquireWriteLock tries the lock before it looks at the context and the file backup client never looks at it: a node demoted while a restore was in flight still published the service's snapshot and moved its position without being primary")
+	}
 	c.Expect("gate/HasRemoteHaltLock-def", strings.Join(c.returnsOf("litefs.(*DB).HasRemoteHaltLock"), ";"), pat("(sync/atomic.(*Value).Load(&p0.remoteHaltLock).(*litefs.HaltLock) != nil)"), "HasRemoteHaltLock() is remoteHaltLock != nil", "")
 
 	c.remoteHaltFamily("remote-halt")
